@@ -42,6 +42,13 @@ def run(rep, prop, tier):
         rep.machinery_failure(f"TLC exported {len(behs)} behaviours of XpmAdopt")
         return
     cases = [{"out": b["out"], "start": b["hist"][0], "plan": adopt.plan_of(b["hist"]), "want": b["decision"], "labels": adopt.labels_of(b["hist"])} for b in behs]
+    # the same behaviours with an orphan that is suspended (SIGSTOP) when the experiment is run again: it exists, so it is adopted
+    cases += [dict(c, stopped=True) for c in cases if c["start"] == "run"]
+    # ... and with an orphan that stays in its body during the whole look-up, whatever the accesses are (it only ends once
+    # the scheduler waits for it): it must be adopted
+    for o in ("ok", "fail"):
+        for st in (False, True):
+            cases.append({"out": o, "start": "run", "plan": [None] * 12 + adopt.JSTEPS[o], "stopped": st, "want": None, "labels": None})
     if tier == "thorough":
         # every placement of the orphan's steps over the accesses the code makes (n = longest sequence of the model + 2)
         n = max(len(c["labels"]) for c in cases) + 2
@@ -63,7 +70,7 @@ def run(rep, prop, tier):
         for clause, text in bad:
             if clause not in kinds:
                 kinds.add(clause)
-                rep.violation(f"{prop}/adopt/{clause}", text, {"adopt": {k: c[k] for k in ("out", "start", "plan")}, "observed": {k: ob[k] for k in ob if k != "case"}})
+                rep.violation(f"{prop}/adopt/{clause}", text, {"adopt": {k: c[k] for k in ("out", "start", "plan", "stopped") if k in c}, "observed": {k: ob[k] for k in ob if k != "case"}})
         if not bad:
             rep.cov["traces_validated_against_impl"] += 1
         if c["labels"] is not None:
@@ -79,7 +86,7 @@ def run(rep, prop, tier):
 
 def replay(rep, prop, payload):
     c = payload["adopt"]
-    ob = adopt.one({"out": c["out"], "start": c["start"], "plan": c["plan"]})
+    ob = adopt.one({k: c[k] for k in ("out", "start", "plan", "stopped") if k in c})
     rep.cov["evaluations"] += 1
     for clause, text in adopt.judge(ob):
         rep.violation(f"{prop}/adopt/{clause}", text, {"adopt": c, "observed": {k: ob[k] for k in ob if k != "case"}})
